@@ -87,16 +87,123 @@ theorem deliver_changed (cfg : Cfg) (s : State) (m : Msg) (B : Addr)
     · simp [deliver, hante, hh] at h
   · simp [deliver, hante] at h
 
-/-- is principal `B` involved in `op`?  (everything that could entitle a change of `B`'s slot
-    when `B` has no outstanding fee grants) -/
+/-- handler level: `B` is the principal in whose name the handler of `m` writes -/
+def Writes (cfg : Cfg) (B : Addr) (m : Msg) : Prop :=
+  match cfg.ruleOf m.typ with
+  | some .actsFor => B = m.creator
+  | some .authorityOnly => B = cfg.authority ∧ m.creator = cfg.authority
+  | some (.sigProven f) => B = m.idField f ∧ cfg.sigOk m f = true
+  | some (.open_ _) => True
+  | none => False
+
+theorem handle_grants (cfg : Cfg) (s s' : State) (m : Msg) (h : handle cfg s m = some s') :
+    s'.grants = s.grants := by
+  unfold handle at h
+  split at h
+  · simp at h
+  · split at h
+    · simp at h
+    · split at h
+      · simp at h; rw [← h]; exact applyRule_grants cfg s m _
+      · simp at h
+
+theorem handle_changed (cfg : Cfg) (s s' : State) (m : Msg) (B : Addr)
+    (h : handle cfg s m = some s') (hne : s'.slots B ≠ s.slots B) : Writes cfg B m := by
+  unfold handle at h
+  unfold Writes
+  split at h
+  · simp at h
+  · cases hr : cfg.ruleOf m.typ with
+    | none => simp [hr] at h
+    | some r =>
+      simp only [hr] at h
+      split at h
+      · rename_i hacc
+        simp at h
+        subst h
+        cases r with
+        | actsFor =>
+          simp only [applyRule] at hne
+          exact bump_changed (by simpa using hne)
+        | authorityOnly =>
+          have hc : m.creator = cfg.authority := by simpa [accepts] using hacc
+          simp only [applyRule, hc, if_true] at hne
+          exact ⟨bump_changed (by simpa using hne), hc⟩
+        | sigProven f =>
+          have hs : cfg.sigOk m f = true := by simpa [accepts] using hacc
+          simp only [applyRule, hs, if_true] at hne
+          exact ⟨bump_changed (by simpa using hne), hs⟩
+        | open_ reason => trivial
+      · simp at h
+
+theorem handleAll_grants (cfg : Cfg) (ms : List Msg) :
+    ∀ s s' : State, handleAll cfg s ms = some s' → s'.grants = s.grants := by
+  induction ms with
+  | nil => intro s s' h; simp [handleAll] at h; rw [h]
+  | cons m rest ih =>
+    intro s s' h
+    simp only [handleAll] at h
+    split at h
+    · simp at h
+    · rename_i s1 h1
+      rw [ih s1 s' h, handle_grants cfg s s1 m h1]
+
+theorem handleAll_changed (cfg : Cfg) (B : Addr) (ms : List Msg) :
+    ∀ s s' : State, handleAll cfg s ms = some s' → s'.slots B ≠ s.slots B → ∃ m ∈ ms, Writes cfg B m := by
+  induction ms with
+  | nil => intro s s' h hne; simp [handleAll] at h; subst h; exact absurd rfl hne
+  | cons m rest ih =>
+    intro s s' h hne
+    simp only [handleAll] at h
+    split at h
+    · simp at h
+    · rename_i s1 h1
+      by_cases h0 : s1.slots B = s.slots B
+      · have hne' : s'.slots B ≠ s1.slots B := by rw [h0]; exact hne
+        obtain ⟨m', hm', hw⟩ := ih s1 s' h hne'
+        exact ⟨m', by simp [hm'], hw⟩
+      · exact ⟨m, by simp, handle_changed cfg s s1 m B h1 h0⟩
+
+theorem deliverTx_grants (cfg : Cfg) (s : State) (ms : List Msg) : (deliverTx cfg s ms).grants = s.grants := by
+  unfold deliverTx
+  split
+  · rfl
+  · split
+    · rfl
+    · rename_i s' h; exact handleAll_grants cfg ms s s' h
+
+/-- is principal `B` involved in message `m`?  (everything that could entitle a change of `B`'s
+    slot when `B` has no outstanding fee grants) -/
+def InvolvesMsg (cfg : Cfg) (B : Addr) (m : Msg) : Prop :=
+  B ∈ m.signers
+  ∨ (∃ f, cfg.ruleOf m.typ = some (.sigProven f) ∧ m.idField f = B ∧ cfg.sigOk m f = true)
+  ∨ (cfg.ruleOf m.typ = some .authorityOnly ∧ B = cfg.authority)
+  ∨ (∃ r, cfg.ruleOf m.typ = some (.open_ r))
+
+/-- is principal `B` involved in `op`? -/
 def Involves (cfg : Cfg) (B : Addr) : Op → Prop
   | .grant g _ => g = B
   | .revoke _ _ => False
-  | .tx m =>
-    B ∈ m.signers
-    ∨ (∃ f, cfg.ruleOf m.typ = some (.sigProven f) ∧ m.idField f = B ∧ cfg.sigOk m f = true)
-    ∨ (cfg.ruleOf m.typ = some .authorityOnly ∧ B = cfg.authority)
-    ∨ (∃ r, cfg.ruleOf m.typ = some (.open_ r))
+  | .tx m => InvolvesMsg cfg B m
+  | .mtx ms => ∃ m ∈ ms, InvolvesMsg cfg B m
+
+/-- a message that passed the decorator and writes for `B` involves `B` (given `B` granted nothing) -/
+theorem writes_involves (cfg : Cfg) (g : Addr → Addr → Bool) (B : Addr) (m : Msg)
+    (hg : ∀ e, g B e = false) (hante : anteOk m g = true) (hw : Writes cfg B m) : InvolvesMsg cfg B m := by
+  unfold Writes at hw
+  unfold InvolvesMsg
+  split at hw
+  · subst hw
+    cases (anteOk_iff m g).1 hante with
+    | inl h => exact Or.inl h
+    | inr h => obtain ⟨a, _, hga⟩ := h; simp [hg a] at hga
+  · rename_i hr
+    exact Or.inr (Or.inr (Or.inl ⟨hr, hw.1⟩))
+  · rename_i f hr
+    exact Or.inr (Or.inl ⟨f, hr, hw.1.symm, hw.2⟩)
+  · rename_i r hr
+    exact Or.inr (Or.inr (Or.inr ⟨r, hr⟩))
+  · exact absurd hw id
 
 theorem step_keeps (cfg : Cfg) (s : State) (op : Op) (B : Addr)
     (hg : ∀ e, s.grants B e = false) (hop : ¬ Involves cfg B op) :
@@ -116,26 +223,46 @@ theorem step_keeps (cfg : Cfg) (s : State) (op : Op) (B : Addr)
     · rfl
     · exact hg e
   | tx m =>
-    simp only [Involves, not_or] at hop
-    obtain ⟨hsig, hsp, hauth, hopen⟩ := hop
+    simp only [Involves] at hop
     refine ⟨?_, fun e => by simp only [step, deliver_grants]; exact hg e⟩
     simp only [step]
     apply Classical.byContradiction
     intro hne
     have ha := deliver_changed cfg s m B hne
+    apply hop
     unfold Authorises at ha
+    unfold InvolvesMsg
     split at ha
     · obtain ⟨_, h2⟩ := ha
       cases h2 with
-      | inl h => exact hsig h
+      | inl h => exact Or.inl h
       | inr h => obtain ⟨a, _, hga⟩ := h; simp [hg a] at hga
     · rename_i hr
-      exact hauth ⟨hr, ha.1⟩
+      exact Or.inr (Or.inr (Or.inl ⟨hr, ha.1⟩))
     · rename_i f hr
-      exact hsp ⟨f, hr, ha.1.symm, ha.2⟩
+      exact Or.inr (Or.inl ⟨f, hr, ha.1.symm, ha.2⟩)
     · rename_i r hr
-      exact hopen ⟨r, hr⟩
-    · exact ha
+      exact Or.inr (Or.inr (Or.inr ⟨r, hr⟩))
+    · exact absurd ha id
+  | mtx ms =>
+    simp only [Involves] at hop
+    refine ⟨?_, fun e => by simp only [step, deliverTx_grants]; exact hg e⟩
+    simp only [step]
+    apply Classical.byContradiction
+    intro hne
+    unfold deliverTx at hne
+    split at hne
+    · exact hne rfl
+    · rename_i hante
+      have hall : anteOkTx ms s.grants = true := by simpa using hante
+      split at hne
+      · exact hne rfl
+      · rename_i s' hs'
+        obtain ⟨m, hm, hw⟩ := handleAll_changed cfg B ms s s' hs' hne
+        have hm_ante : anteOk m s.grants = true := by
+          unfold anteOkTx at hall
+          exact (List.all_eq_true.1 hall) m hm
+        exact hop ⟨m, hm, writes_involves cfg s.grants B m hg hm_ante hw⟩
 
 end Lemmas
 
@@ -186,7 +313,8 @@ theorem sig_proven_only (cfg : Cfg) (s : State) (m : Msg) (X : Addr) (f : Nat)
   have := deliver_changed cfg s m X h
   simpa [Authorises, hr] using this
 
-/-- The whole property over ALL histories of grants, revocations and transactions: a principal
+/-- The whole property over ALL histories of grants, revocations, single- and MULTI-message
+transactions (`Op.mtx`: the history version of `multi_msg_each_checked`): a principal
 that starts without outstanding fee grants and is not involved in any operation (never signs,
 never grants, is never named by a verifying signature-proven field, is not the authority of an
 authority-only message) keeps its slot — unless an `open_` message type occurs, about which
@@ -202,6 +330,51 @@ theorem history_no_cross_principal_write (cfg : Cfg) (B : Addr) (ops : List Op) 
     have h2 := ih (step cfg s op) h1.2 (fun o ho => hops o (by simp [ho]))
     simp only [run, List.foldl_cons] at h2 ⊢
     rw [h2, h1.1]
+
+/-- Multi-message transactions, clause "signed by that principal or by an address holding a fee
+grant FROM IT": an accepted transaction has passed the decorator's check for EVERY one of its
+messages individually — each creator signed, or granted an allowance to a signer, itself.  A
+grant held from the creator of one message does not carry over to another message. -/
+theorem multi_msg_each_checked (cfg : Cfg) (s : State) (msgs : List Msg)
+    (h : txAccepted cfg s msgs = true) : ∀ m ∈ msgs, anteOk m s.grants = true := by
+  unfold txAccepted anteOkTx at h
+  have h1 : (msgs.all fun m => anteOk m s.grants) = true := by
+    cases hh : (msgs.all fun m => anteOk m s.grants) <;> simp [hh] at h ⊢
+  exact fun m hm => (List.all_eq_true.1 h1) m hm
+
+/-- …and a transaction that is not accepted changes nothing at all (atomicity), while an accepted
+one changes `B`'s slot only through a message that writes for `B` and was itself let through. -/
+theorem multi_msg_changed (cfg : Cfg) (s : State) (msgs : List Msg) (B : Addr)
+    (hne : (deliverTx cfg s msgs).slots B ≠ s.slots B) :
+    txAccepted cfg s msgs = true ∧ ∃ m ∈ msgs, Writes cfg B m ∧ anteOk m s.grants = true := by
+  unfold deliverTx at hne
+  split at hne
+  · exact absurd rfl hne
+  · rename_i hante
+    have hall : anteOkTx msgs s.grants = true := by simpa using hante
+    split at hne
+    · exact absurd rfl hne
+    · rename_i s' hs'
+      obtain ⟨m, hm, hw⟩ := handleAll_changed cfg B msgs s s' hs' hne
+      refine ⟨by simp [txAccepted, hall, hs'], m, hm, hw, ?_⟩
+      unfold anteOkTx at hall
+      exact (List.all_eq_true.1 hall) m hm
+
+/-- The attack the per-message check rules out: in a transaction signed by signers none of which
+is `B` or holds a grant from `B`, no message in `B`'s name (nor any other `actsFor` message) can
+change `B`'s slot — whatever grants the signers hold from the creators of the OTHER messages. -/
+theorem multi_msg_no_cross_principal_write (cfg : Cfg) (s : State) (msgs : List Msg) (B : Addr)
+    (hr : ∀ m ∈ msgs, cfg.ruleOf m.typ = some .actsFor)
+    (hB : ∀ m ∈ msgs, B ∉ m.signers) (hg : ∀ m ∈ msgs, ∀ a ∈ m.signers, s.grants B a = false) :
+    (deliverTx cfg s msgs).slots B = s.slots B := by
+  apply Classical.byContradiction
+  intro hne
+  obtain ⟨_, m, hm, hw, hante⟩ := multi_msg_changed cfg s msgs B hne
+  simp only [Writes, hr m hm] at hw
+  subst hw
+  cases (anteOk_iff m s.grants).1 hante with
+  | inl h => exact hB m hm h
+  | inr h => obtain ⟨a, ha, hga⟩ := h; simp [hg m hm a ha] at hga
 
 /-! ### The tables against the source (`Gen/Auth.lean`) -/
 
@@ -303,6 +476,19 @@ example : (run exCfg exState [.grant 4 1, .tx (exMsg "valset.KeepAlive" 1 4 0), 
     .revoke 4 1, .tx (exMsg "valset.KeepAlive" 1 4 0)]).slots 4 = 1 := by decide
 example : (run exCfg exState [.grant 4 1, .tx (exMsg "valset.KeepAlive" 1 4 0), .tx (exMsg "tokenfactory.Mint" 1 3 3),
     .revoke 4 1, .tx (exMsg "valset.KeepAlive" 1 4 0)]).slots 3 = 0 := by decide
+
+/-- the attack order: S = 1 holds a grant from G = 2 but none from B = 3; [creator G, creator B] and
+    its reverse are rejected as a whole (G's slot does not change either), [G, S] is accepted -/
+example : (deliverTx exCfg exState [exMsg "valset.KeepAlive" 1 2 0, exMsg "valset.KeepAlive" 1 3 0]).slots 3 = 0 := by decide
+example : (deliverTx exCfg exState [exMsg "valset.KeepAlive" 1 2 0, exMsg "valset.KeepAlive" 1 3 0]).slots 2 = 0 := by decide
+example : (deliverTx exCfg exState [exMsg "valset.KeepAlive" 1 3 0, exMsg "valset.KeepAlive" 1 2 0]).slots 2 = 0 := by decide
+example : txAccepted exCfg exState [exMsg "valset.KeepAlive" 1 2 0, exMsg "valset.KeepAlive" 1 3 0] = false := by decide
+example : (deliverTx exCfg exState [exMsg "valset.KeepAlive" 1 2 0, exMsg "tokenfactory.Mint" 1 1 0]).slots 2 = 1 := by decide
+example : (deliverTx exCfg exState [exMsg "valset.KeepAlive" 1 2 0, exMsg "tokenfactory.Mint" 1 1 0]).slots 1 = 1 := by decide
+/-- atomicity: a governance message from a user at the end reverts the first message too -/
+example : (deliverTx exCfg exState [exMsg "valset.KeepAlive" 1 1 0, exMsg "skyway.OverrideNonceProposal" 1 1 0]).slots 1 = 0 := by decide
+example : (run exCfg exState [.mtx [exMsg "valset.KeepAlive" 1 2 0, exMsg "valset.KeepAlive" 1 3 0], .grant 3 1,
+    .mtx [exMsg "valset.KeepAlive" 1 2 0, exMsg "valset.KeepAlive" 1 3 0]]).slots 3 = 1 := by decide
 
 end Examples
 
